@@ -459,6 +459,16 @@ func (w *Worker) global(g *ssa.Global) *Value {
 		}
 		c := new(Value)
 		*c = zero(deref(g.Type()))
+		// the standard streams exist (package os is not initialised by the engine): each is a
+		// distinct stand-in file; what is written to it goes through (*os.File).Write, which a
+		// harness replaces when it wants to see the terminal
+		if pkg.Pkg.Path() == "os" && (g.Name() == "Stdout" || g.Name() == "Stderr" || g.Name() == "Stdin") {
+			if pt, ok := deref(g.Type()).(*types.Pointer); ok {
+				cell := new(Value)
+				*cell = zero(pt.Elem())
+				*c = cell
+			}
+		}
 		w.shared[g] = c
 		return c
 	}
@@ -490,6 +500,13 @@ func (w *Worker) allocGlobals(pkg *ssa.Package, into map[*ssa.Global]*Value) {
 			if _, ok := into[g]; !ok {
 				c := new(Value)
 				*c = zero(deref(g.Type()))
+				if pkg.Pkg.Path() == "os" && (g.Name() == "Stdout" || g.Name() == "Stderr" || g.Name() == "Stdin") {
+					if pt, ok := deref(g.Type()).(*types.Pointer); ok {
+						cell := new(Value)
+						*cell = zero(pt.Elem())
+						*c = cell
+					}
+				}
 				into[g] = c
 			}
 		}
